@@ -3,6 +3,7 @@
 package impl
 
 import (
+	dtpb "github.com/google/fhir/go/proto/google/fhir/proto/r4/core/datatypes_go_proto"
 	"math"
 	"math/big"
 
@@ -90,9 +91,27 @@ func VerifHarness_C08_Truncate() { verifRounding(2) }
 // C08-A7: abs() is exact on Decimals and Integers; |MinInt32| is empty.
 func VerifHarness_C08_Abs() {
 	verifrt.ExactFloat()
+	if verifrt.NondetBool("quantity") {
+		// a Quantity: abs() keeps the unit and every digit (seven decimal places here; the old code kept six)
+		d := verifrt.NondetDecimalDigits("q", 7, verifrt.Bound(3, 9))
+		unit := []string{"mg", "1", "year"}[verifrt.Choose("unit", 3)]
+		q, err := system.ParseQuantity(d.String(), unit)
+		verifrt.Assume(err == nil)
+		res, err := Abs(verifCtx(), system.Collection{q})
+		wantQ, err2 := system.ParseQuantity(d.Abs().String(), unit)
+		verifrt.Assume(err2 == nil)
+		ok := err == nil && len(res) == 1
+		if ok {
+			eq, has := system.TryEqual(res[0].(system.Any), wantQ)
+			ok = eq && has
+		}
+		verifrt.Assert(ok, "abs-quantity-exact-and-keeps-the-unit")
+		verifrt.Reach("end")
+		return
+	}
 	in, n, k := verifMathOperand()
-	res, err := Abs(verifCtx(), in)
 	want := new(big.Int).Abs(n)
+	res, err := Abs(verifCtx(), in)
 	if i, isInt := in[0].(system.Integer); isInt {
 		if i == math.MinInt32 {
 			verifrt.Assert(err != nil || len(res) == 0, "abs-of-min-integer-is-not-a-number")
@@ -125,6 +144,10 @@ func VerifHarness_C08_Round() {
 		menu := []int32{0, 1, -1, 15, -25, 149, math.MaxInt32, math.MinInt32}
 		i := menu[verifrt.Choose("integer", len(menu))]
 		in, n, k = system.Collection{system.Integer(i)}, big.NewInt(int64(i)), 0
+	} else if verifrt.NondetBool("fhirDecimalElement") {
+		// a FHIR decimal element (its text goes through system.From)
+		d := verifrt.NondetDecimalDigits("fd", verifrt.Choose("fscale", 3), 3)
+		in, n, k = system.Collection{&dtpb.Decimal{Value: d.String()}}, d.Coefficient(), int(-d.Exponent())
 	} else {
 		shapes := [][2]int{{0, 11}, {1, 12}, {2, 9}, {3, 19}, {4, 12}, {20, 21}}
 		sh := shapes[verifrt.Choose("shape", len(shapes))]
